@@ -10,11 +10,11 @@ EXPLANATION = (
     "from an ordered-map iteration (sorted, unique). R07.4: extraction re-wraps scalars exactly and copies containers verbatim (R05.4); every Position "
     "the selector records pairs an offset with the length of the entry at that offset (or is the root / the caller's position) and the selector writers "
     "copy exactly that range. R07.5: the set of functions that write a container header equals the set covered by these rules (nothing escapes the "
-    "induction). NOT decided: equality with the tree result at each step.")
+    "induction). R07.8: a selector writer that nests copied bytes under a CONTAINER_TAG entry word has excluded the scalar header kind on that path, because the whole root (possibly a scalar document) is recorded as a Container position (D20, fixed). NOT decided: equality with the tree result at each step.")
 
 
 def check(ctx, run):
-    run.rules_run = ['R07.1', 'R07.2', 'R07.3', 'R07.4', 'R07.5']
+    run.rules_run = ['R07.1', 'R07.2', 'R07.3', 'R07.4', 'R07.5', 'R07.6', 'R07.7', 'R07.8']
     editing.r06_2(ctx, run, rule='R07.1/R06.2')
     layout.r01_5(ctx, run, rule='R07.2/R01.5', which='ser')
     layout.r01_5(ctx, run, rule='R07.2/R06.3', which='builder')
@@ -23,5 +23,6 @@ def check(ctx, run):
     editing.r07_4(ctx, run)
     buffers.r17_5(ctx, run, rule='R07.4/R17.5')
     editing.r06_9(ctx, run, rule='R07.6/R06.9', which=('bytes',))
+    editing.r07_8(ctx, run)
     accessors.name_variants_alike(ctx, run, 'R07.7', lambda p_: p_.startswith('functions::'))
     return report.finish(run, level='other', explanation=EXPLANATION, assumptions=["A1: inputs of the chain are canonical documents", "A2/A3"])
